@@ -205,6 +205,11 @@ impl Scripted {
 }
 
 impl Command<TDev> for Scripted {
+    // the documented NON-BINDING hint: deliberately unrelated to the forms the script implements, so that a dispatcher
+    // that consults it shows up as a difference
+    fn meta(&self) -> CommandTypeMeta {
+        match self.id % 4 { 0 => CommandTypeMeta::Unknown, 1 => CommandTypeMeta::NoQuery, 2 => CommandTypeMeta::QueryOnly, _ => CommandTypeMeta::Both }
+    }
     fn event(&self, d: &mut TDev, _c: &mut Context, params: Parameters) -> Result<()> { self.interp(&self.ev, false, d, params, None) }
     fn query(&self, d: &mut TDev, _c: &mut Context, params: Parameters, resp: ResponseUnit) -> Result<()> {
         self.interp(&self.qu, true, d, params, Some(resp))
